@@ -82,6 +82,7 @@ enum Op {
     Sum(usize, usize),
     Rot(usize),
     SplitBy(usize),
+    Move(usize, usize),   // remove_at(p) and insert the returned item itself at q (not a fresh copy)
     First,       // first() right now (before anything else pushes the root's pending modification)
     Last,
     Flat(u64),   // overwrite the (public) priorities: 0 = all equal, 1 = equal within a level - heap-ordered, full of ties
@@ -145,6 +146,22 @@ fn exec(ops: &[Op], heap_only: bool) -> Option<(String, String)> {
                     if got != want && !heap_only {
                         return Some((format!("remove_at({}) returned {}", p, got), format!("{}", want)));
                     }
+                }
+                Op::Move(p, q) => {
+                    if v.is_empty() { continue; }
+                    let p = p % v.len();
+                    let it = t.remove_at(p);
+                    let x = v.remove(p);
+                    keys.remove(p);
+                    if it.x != x && !heap_only { return Some((format!("remove_at({}) returned {}", p, it.x), format!("{}", x))); }
+                    let q = (*q).min(v.len());
+                    let lo = if q == 0 { 0 } else { keys[q - 1] };
+                    let hi = if q == v.len() { 1u64 << 62 } else { keys[q] };
+                    let mut it = it;
+                    it.key = lo + (hi - lo) / 2;
+                    t.insert_at(q, it);
+                    v.insert(q, x);
+                    keys.insert(q, lo + (hi - lo) / 2);
                 }
                 Op::First | Op::Last => {
                     let (got, want_) = if matches!(o, Op::First) { (t.first().map(|i| i.x), v.first().copied()) } else { (t.last().map(|i| i.x), v.last().copied()) };
@@ -268,6 +285,7 @@ fn enc(ops: &[Op]) -> String {
         Op::Sum(l, r) => format!("q{}-{}", l, r),
         Op::Rot(k) => format!("v{}", k),
         Op::SplitBy(k) => format!("p{}", k),
+        Op::Move(p, q) => format!("M{}-{}", p, q),
         Op::First => "F0".to_string(),
         Op::Last => "L0".to_string(),
         Op::Flat(m) => format!("t{}", m),
@@ -285,6 +303,7 @@ fn dec(s: &str) -> Vec<Op> {
             "q" => Op::Sum(num(parts[0]) as usize, num(parts.get(1)?) as usize),
             "v" => Op::Rot(num(parts[0]) as usize),
             "p" => Op::SplitBy(num(parts[0]) as usize),
+            "M" => Op::Move(num(parts[0]) as usize, num(parts.get(1)?) as usize),
             "F" => Op::First,
             "L" => Op::Last,
             "t" => Op::Flat(num(parts[0])),
@@ -310,7 +329,7 @@ fn height_bound(n: usize) -> usize { (5.0 * ((n + 1) as f64).log2() + 20.0).floo
 /// C16, height clause (BOUNDED, statistical): grow a treap to `n` elements by an order that degenerates an unbalanced search tree and compare
 /// its height with 5*log2(n+1)+20 at every doubling (so that a chain is noticed at a few hundred nodes, long before the library's
 /// recursive split / merge could exhaust the stack).  family: 0 sorted appends, 1 repeated front insertion, 2 split-and-swap rotations,
-/// 3 appends interleaved with removals of the front, 4 merges of single-node treaps from the left
+/// 3 appends interleaved with removals of the front, 4 merges of single-node treaps from the left, 5 appends of nodes each created on its own thread
 fn height_case(family: u64, n: usize) -> Option<(String, String)> {
     if family >= 200 {
         return roundrobin_case(family - 200, n);
@@ -335,6 +354,12 @@ fn height_case(family: u64, n: usize) -> Option<(String, String)> {
                 3 => {
                     t.insert_at(len, It::new(k)); t.insert_at(len + 1, It::new(k)); len += 2;
                     if k % 3 == 0 { t.remove_at(0); len -= 1; }
+                }
+                5 => {
+                    // every node is created on a thread of its own (spawn, join: nothing runs concurrently): the priorities must still differ
+                    let single = std::thread::spawn(move || Treap::from_item(It::new(k))).join().unwrap();
+                    t = Treap::merge(std::mem::replace(&mut t, Treap::new()), single);
+                    len += 1;
                 }
                 _ => { t = Treap::merge(Treap::from_item(It::new(k)), std::mem::replace(&mut t, Treap::new())); len += 1; }
             }
@@ -427,6 +452,10 @@ pub fn run(seed: u64, replay: Option<String>, heap_only: bool) -> Outcome {
                 return Outcome { cex: Some(Cex { input: format!("height;{};{}", family, n), observed: o, expected: e }), cases };
             }
         }
+        cases += 1;
+        if let Some((o, e)) = height_case(5, 2000) {
+            return Outcome { cex: Some(Cex { input: "height;5;2000".into(), observed: o, expected: e }), cases };
+        }
         let (kmax, m) = if n >= 1_000_000 { (19u64, 384usize) } else { (16u64, 384usize) };
         let rr: &[(u64, usize)] = if n >= 1_000_000 { &[(10, 1000), (13, 500), (12, 1000), (16, 100)] } else { &[(10, 1000), (13, 500)] };
         for &(k, rounds) in rr {
@@ -465,7 +494,8 @@ pub fn run(seed: u64, replay: Option<String>, heap_only: bool) -> Outcome {
         let len = 2 + rng.below(22) as usize;
         let mut ops = Vec::new();
         for _ in 0..len {
-            ops.push(match rng.below(10) {
+            ops.push(match rng.below(11) {
+                10 => Op::Move(rng.below(8) as usize, rng.below(8) as usize),
                 8 => if rng.below(2) == 0 { Op::First } else { Op::Last },
                 9 => Op::Flat(rng.below(2)),
                 0 | 1 | 2 => Op::Ins(rng.below(8) as usize, rng.below(50)),
